@@ -169,12 +169,11 @@ Definition data_present (d : data) (k : str) : bool :=
   else smem k (other_present d).
 Definition present_sections (d : data) : list str := filter (data_present d) all_sections.
 (** update_sections, as write() runs it *)
+Definition missing_sections (d : data) : list str := filter (fun k => negb (smem k (sections d))) (present_sections d).
+Definition with_missing (d : data) : data := fold_left (fun d k => insert_section k d) (missing_sections d) d.
+Definition extra_sections (d d1 : data) : list str := filter (fun k => negb (smem k (present_sections d))) (sections d1).
 Definition update_sections (d : data) : data :=
-  let present := present_sections d in
-  let missing := filter (fun k => negb (smem k (sections d))) present in
-  let d1 := fold_left (fun d k => insert_section k d) missing d in
-  let extra := filter (fun k => negb (smem k present)) (sections d1) in
-  fold_left (fun d k => delete_section k d) extra d1.
+  fold_left (fun d k => delete_section k d) (extra_sections d (with_missing d)) (with_missing d).
 Definition written_sections (d : data) : list str := sections (update_sections d).
 
 (** * MOP rewriting programs *)
